@@ -331,6 +331,9 @@ pub fn ops_from(v: &Value) -> Vec<Op> {
 }
 
 pub fn replay(case: &Value) -> Option<Result<String, String>> {
+    if case["shared_handle"].as_bool() == Some(true) {
+        return Some(run_concurrent(8, 300).map(|n| format!("{} concurrent calls agree with the model", n)).map_err(|e| e.1));
+    }
     if !case["reader_ops"].is_array() {
         return None;
     }
@@ -376,4 +379,109 @@ pub fn add_units(p: &mut Plan, mine: Class, depth: usize) {
             });
         }));
     }
+}
+
+/// One reader handle shared by several free-running threads (readers are
+/// Sync): behind a barrier every thread asks the SAME fresh handle the same
+/// questions at the same time - verify(), lookups, a full stream, get_key -,
+/// for `rounds` fresh handles. Not an enumeration of schedules (the library's
+/// readers have no synchronisation points to intercept; whatever state a
+/// change adds inside a handle is reached by the first concurrent calls on
+/// it); answers are compared with the model, panics are caught per thread.
+pub fn run_concurrent(threads: usize, rounds: usize) -> Result<u64, (Class, String)> {
+    use std::sync::{Arc, Barrier, Mutex};
+    let cs = contents();
+    let failure: Arc<Mutex<Option<(Class, String)>>> = Arc::new(Mutex::new(None));
+    let mut n = 0u64;
+    for round in 0..rounds {
+        let which = round % 2;
+        let handle = Arc::new(Fst::new(cs[which].1).map_err(|e| (Class::Reopen, format!("{:?}", e)))?);
+        let barrier = Arc::new(Barrier::new(threads));
+        std::thread::scope(|sc| {
+            for t in 0..threads {
+                let (handle, barrier, failure) = (handle.clone(), barrier.clone(), failure.clone());
+                sc.spawn(move || {
+                    barrier.wait();
+                    let fail = |c: Class, m: String| {
+                        let mut f = failure.lock().unwrap();
+                        if f.is_none() {
+                            *f = Some((c, m));
+                        }
+                    };
+                    // the order of the questions differs per thread, the first one is always concurrent
+                    for q in 0..4usize {
+                        let what = (q + if round % 3 == 0 { 0 } else { t }) % 4;
+                        let class = [Class::Verify, Class::Lookup, Class::Stream, Class::GetKey][what];
+                        let r = guard(|| -> Result<(), String> {
+                            match what {
+                                0 => handle.verify().map_err(|e| format!("verify() of builder output failed: {:?}", e)),
+                                1 => {
+                                    for p in PROBES {
+                                        let want = cs[which].0.iter().find(|kv| kv.0 == p).map(|kv| kv.1);
+                                        let got = handle.get(p).map(|o| o.value());
+                                        if got != want {
+                                            return Err(format!("get({}) = {:?}, expected {:?}", key_str(p), got, want));
+                                        }
+                                    }
+                                    Ok(())
+                                }
+                                2 => {
+                                    let mut s = handle.stream();
+                                    let mut got: Vec<Kv> = vec![];
+                                    while let Some((k, o)) = s.next() {
+                                        got.push((k.to_vec(), o.value()));
+                                    }
+                                    if got != cs[which].0 {
+                                        return Err(format!("stream() gave {}, expected {}", kvs_str(&got), kvs_str(&cs[which].0)));
+                                    }
+                                    Ok(())
+                                }
+                                _ => {
+                                    for (k, v) in &cs[which].0 {
+                                        if handle.get_key(*v).as_ref() != Some(k) {
+                                            return Err(format!("get_key({}) did not give {}", v, key_str(k)));
+                                        }
+                                    }
+                                    Ok(())
+                                }
+                            }
+                        });
+                        match r {
+                            Ok(Ok(())) => {}
+                            Ok(Err(m)) => fail(class, format!("{} threads sharing one reader handle, round {}: {}", threads, round, m)),
+                            Err(p) => fail(class, format!("PANIC {} threads sharing one reader handle, round {}: {}", threads, round, p)),
+                        }
+                    }
+                });
+            }
+        });
+        n += 4 * threads as u64;
+        if failure.lock().unwrap().is_some() {
+            break;
+        }
+    }
+    let f = failure.lock().unwrap().take();
+    match f {
+        Some(f) => Err(f),
+        None => Ok(n),
+    }
+}
+
+pub const RULE_CONCURRENT: &str = " One reader handle shared by 8 free-running threads behind a barrier (300 fresh handles; verify, lookups, a full stream, get_key at the same time): answers as in the model, no panic - uncontrolled schedules, not an enumeration.";
+
+pub fn add_concurrent_unit(p: &mut Plan, mine: Class) {
+    p.units.push(unit("one-reader-handle-shared-by-free-running-threads (uncontrolled schedules, not an enumeration)", "shared handle".into(), move |st, rep| {
+        match run_concurrent(8, 300) {
+            Ok(n) => {
+                st.evals += n;
+                st.transitions += n;
+                st.count("calls_on_reader_handles_shared_between_threads", n);
+            }
+            Err((class, msg)) => {
+                if class == mine || (mine == Class::Panics && msg.starts_with("PANIC")) {
+                    rep.violation("shared reader handle".into(), msg, json!({"shared_handle": true}));
+                }
+            }
+        }
+    }));
 }
